@@ -73,7 +73,15 @@ def run(sid, pids):
                 m = re.search(r"replay=(\S+)", v)
                 if m and os.path.exists(m.group(1)):
                     try:
-                        clauses += json.load(open(m.group(1))).get("falsified_clauses", [])
+                        rp = json.load(open(m.group(1)))
+                        clauses += rp.get("falsified_clauses", [])
+                        # keep the minimised failing program in the corpus (run first on every check, independent of
+                        # the generators' random stream): the change stays detected when the generators move on
+                        cf = os.path.join(V, "corpus", pid, "seeded-%s.prog" % sid)
+                        prog = rp.get("shrunk_program") or rp.get("program")
+                        if prog and rp.get("suite") == pid and rp.get("falsified_clauses") and not os.path.exists(cf):
+                            os.makedirs(os.path.dirname(cf), exist_ok=True)
+                            open(cf, "w").write(prog if prog.endswith("\n") else prog + "\n")
                     except Exception:
                         pass
             meta["caught_by"][pid] = {"result": kind, "exit": rc, "clauses": sorted(set(clauses))[:6], "wall_s": round(time.time() - t0, 1)}
